@@ -218,6 +218,16 @@ def ed25519(ctx, world, ev):
         ctx.ob("K5-decoder", "Ed25519 decode path (%s)" % ("x = Q - root" if flip else "x = root"), ok,
                "x is negated exactly when parity(root) != bit 255 of the little-endian integer: inverse of the encoder's sign rule" if ok else
                "decoder's sign rule does not mirror the encoder (flip=%s; conditions %s)" % (flip, sorted(show(t, maxdepth=4) + "=" + str(p) for t, p in conds)[:4]), o.site)
+        okr, whyr = False, "recovered x is not the result of a root helper applied to the decoded y: %s" % show(x0, maxdepth=3)
+        if isinstance(x0, App) and x0.f.startswith("fn:") and len(x0.args) == 1:
+            rf = gm.func_by_qual(world, x0.f[3:])
+            ycoord = coords[0].items[1]
+            ycoord = ycoord.args[0] if is_app(ycoord, "Mod") and ycoord.args[1] == Const(Q) else ycoord
+            if rf is not None and x0.args[0] == ycoord:
+                okr, whyr = gm.sqrt_helper_ok(world, ev, rf)
+        ctx.ob("K5-root", "Ed25519 decode path (%s)" % ("x = Q - root" if flip else "x = root"), okr,
+               "x is recovered from y by the square-root algorithm: " + whyr if okr else
+               "point decompression does not recover x correctly: " + whyr, o.site)
         okl = has_eq(conds, mk_app("len", (b,)), Const(32))
         ctx.ob("K5-width", "Ed25519 decode path (%s)" % ("x = Q - root" if flip else "x = root"), okl,
                "decoder accepts exactly 32 bytes (C05 D1)" if okl else "decoder does not enforce the 32-byte width: not the inverse of the encoder", o.site)
